@@ -175,7 +175,7 @@ fn mv_str(m: &MMove) -> String {
 }
 
 pub fn run(ctx: &mut Ctx) {
-    let n = ctx.budget(60_000, 3_000_000);
+    let n = ctx.budget(500_000, 8_000_000);
     let mut src = Sources::standard(n);
     if ctx.tier == crate::ctx::Tier::Thorough {
         src.three_man = u64::MAX;
